@@ -251,6 +251,30 @@ def hand_guarded_reduction(x: fp.Real, y: fp.Real, xs: list[fp.Real]):
         m = max(ys) if len(ys) > 0 else x
         ok = len(ys) > 0 and min(ys) > y
         return (m, ok, len(ys))''',
+    'hand_long_countdown': '''@fp.fpy
+def hand_long_countdown(x: fp.Real, y: fp.Real, xs: list[fp.Real]):
+    with fp.FP64:
+        best = 0
+        for i in range(300, 0, -1):
+            if x * i >= 250:
+                best = i
+        low = 0
+        for j in range(-300, 20):
+            if y * j > 200:
+                low = j
+        return (best, low)''',
+    'hand_alias_rebound': '''@fp.fpy
+def hand_alias_rebound(x: fp.Real, y: fp.Real, xs: list[fp.Real]):
+    with fp.FP64:
+        cur = xs
+        old = cur
+        if x > 0:
+            cur = [x, y]
+        prev = old
+        for e in xs:
+            if e > y:
+                old = [e, e, e]
+        return (old[0] + cur[0], len(prev), len(old), prev[1])''',
     'hand_alias_write': '''@fp.fpy
 def hand_alias_write(x: fp.Real, y: fp.Real, xs: list[fp.Real]):
     with fp.FP64:
